@@ -121,13 +121,105 @@ Record bstate := {
   b_eb : option ebuild;             (* element_builder *)
   b_ids : list (str * N);           (* id_nodes / seen_ids, latest first *)
   b_spans : spaninfo;
-  b_open : list str                 (* open_prefixes: the prefix each open element was written with, innermost first *)
+  b_open : list str;                (* open_prefixes: the prefix each open element was written with, innermost first *)
+  b_dstart : option N               (* parsing a document: where its first token starts (0, or 3 behind a byte order mark) *)
 }.
 
 Definition s_xmlns : str := [120; 109; 108; 110; 115].
 Definition s_xml : str := [120; 109; 108].
 Definition s_id_local : str := [105; 100].
 Definition s_version_10 : str := [49; 46; 48].
+
+(* ---------- the XML declaration xmlparser does not recognise (`<?xml` followed by a tab or a line end): src/parse.rs
+   declaration_version, over xmlparser's Stream.  The content is `VersionInfo EncodingDecl? SDDecl? S?`; everything in front
+   of the version value is ASCII, so byte offsets and character offsets agree there. ---------- *)
+Definition s_version : str := [118; 101; 114; 115; 105; 111; 110].
+Definition s_encoding : str := [101; 110; 99; 111; 100; 105; 110; 103].
+Definition s_standalone : str := [115; 116; 97; 110; 100; 97; 108; 111; 110; 101].
+Definition s_yes : str := [121; 101; 115].
+Definition s_no : str := [110; 111].
+
+Definition lower_ascii (c : N) : N := if (65 <=? c) && (c <=? 90) then c + 32 else c.
+(* target.eq_ignore_ascii_case("xml") *)
+Definition reserved_target (t : str) : bool := str_eqb (map lower_ascii t) s_xml.
+
+Definition is_xml_space (c : N) : bool := (c =? 32) || (c =? 9) || (c =? 10) || (c =? 13).
+Fixpoint skip_xml_spaces (s : str) : str :=
+  match s with c :: r => if is_xml_space c then skip_xml_spaces r else s | [] => [] end.
+Fixpoint strip_str_prefix (p s : str) : option str :=
+  match p, s with
+  | [], _ => Some s
+  | a :: p', b :: s' => if a =? b then strip_str_prefix p' s' else None
+  | _ :: _, [] => None
+  end.
+Fixpoint take_until (q : N) (s : str) : str * str :=
+  match s with
+  | [] => ([], [])
+  | c :: r => if c =? q then ([], s) else let '(v, t) := take_until q r in (c :: v, t)
+  end.
+Definition slen (s : str) : N := N.of_nat (length s).
+
+(* consume_eq, consume_quote, the value up to the same quote, the quote: the value, what follows it, and how many characters
+   stand in front of the value *)
+Definition eq_quoted (s : str) : option (str * str * N) :=
+  match skip_xml_spaces s with
+  | 61 :: s2 =>
+      match skip_xml_spaces s2 with
+      | q :: s4 =>
+          if (q =? 34) || (q =? 39) then
+            let '(v, r) := take_until q s4 in
+            match r with
+            | _ :: r' => Some (v, r', slen s - slen s4)
+            | [] => None
+            end
+          else None
+      | [] => None
+      end
+  | _ => None
+  end.
+
+Definition is_digit (c : N) : bool := (48 <=? c) && (c <=? 57).
+Definition is_alpha (c : N) : bool := ((65 <=? c) && (c <=? 90)) || ((97 <=? c) && (c <=? 122)).
+Definition valid_version (v : str) : bool :=
+  match strip_str_prefix [49; 46] v with Some (d :: ds) => forallb is_digit (d :: ds) | _ => false end.
+Definition valid_encname (v : str) : bool :=
+  match v with
+  | c :: _ => is_alpha c && forallb (fun c => is_alpha c || is_digit c || (c =? 46) || (c =? 95) || (c =? 45)) v
+  | [] => false
+  end.
+Definition valid_sd (v : str) : bool := str_eqb v s_yes || str_eqb v s_no.
+Definition after_value (r : str) : bool := match r with [] => true | c :: _ => is_xml_space c end.
+
+Definition opt_pseudo_attr (name : str) (valid : str -> bool) (r : str) : option str :=
+  match strip_str_prefix name r with
+  | None => Some r
+  | Some r' =>
+      match eq_quoted r' with
+      | Some (v, r'', _) => if valid v && after_value r'' then Some (skip_xml_spaces r'') else None
+      | None => None
+      end
+  end.
+
+Definition declaration_version (c : sstr) : option sstr :=
+  match strip_str_prefix s_version (ss_text c) with
+  | None => None
+  | Some r0 =>
+      match eq_quoted r0 with
+      | None => None
+      | Some (v, r1, off) =>
+          if valid_version v && after_value r1 then
+            let vstart := sp_start (ss_span c) + 7 + off in
+            match opt_pseudo_attr s_encoding valid_encname (skip_xml_spaces r1) with
+            | None => None
+            | Some r3 =>
+                match opt_pseudo_attr s_standalone valid_sd r3 with
+                | Some [] => Some {| ss_text := v; ss_span := {| sp_start := vstart; sp_end := vstart + slen v |} |}
+                | _ => None
+                end
+            end
+          else None
+      end
+  end.
 
 Definition qname_str (prefix name : str) : str :=
   match prefix with [] => name | _ => prefix ++ [58] ++ name end.
@@ -149,20 +241,24 @@ Section WithBuiltins.
 
   Definition with_tabs (st : bstate) (t : tables) : bstate :=
     {| b_tabs := t; b_next := b_next st; b_stack := b_stack st; b_nsstack := b_nsstack st; b_eb := b_eb st;
-       b_ids := b_ids st; b_spans := b_spans st; b_open := b_open st |}.
+       b_ids := b_ids st; b_spans := b_spans st; b_open := b_open st; b_dstart := b_dstart st |}.
   Definition with_spans (st : bstate) (m : spaninfo) : bstate :=
     {| b_tabs := b_tabs st; b_next := b_next st; b_stack := b_stack st; b_nsstack := b_nsstack st; b_eb := b_eb st;
-       b_ids := b_ids st; b_spans := m; b_open := b_open st |}.
+       b_ids := b_ids st; b_spans := m; b_open := b_open st; b_dstart := b_dstart st |}.
   Definition with_eb (st : bstate) (e : option ebuild) : bstate :=
     {| b_tabs := b_tabs st; b_next := b_next st; b_stack := b_stack st; b_nsstack := b_nsstack st; b_eb := e;
-       b_ids := b_ids st; b_spans := b_spans st; b_open := b_open st |}.
+       b_ids := b_ids st; b_spans := b_spans st; b_open := b_open st; b_dstart := b_dstart st |}.
+
+  Definition with_dstart (st : bstate) (d : option N) : bstate :=
+    {| b_tabs := b_tabs st; b_next := b_next st; b_stack := b_stack st; b_nsstack := b_nsstack st; b_eb := b_eb st;
+       b_ids := b_ids st; b_spans := b_spans st; b_open := b_open st; b_dstart := d |}.
 
   (* DocumentBuilder::new *)
   Definition builder_new (t : tables) (next : N) : bstate :=
     {| b_tabs := t; b_next := next + 1;
        b_stack := [ {| on_slot := next; on_val := VDocument; on_kids := FNil |} ];
        b_nsstack := [ [(ep, nn)]; [(b_xml_prefix bi, b_xml_namespace bi)] ];
-       b_eb := None; b_ids := []; b_spans := []; b_open := [] |}.
+       b_eb := None; b_ids := []; b_spans := []; b_open := []; b_dstart := None |}.
 
   (* DocumentBuilder::add: a new node appended to the current node; returns its slot *)
   Definition add_node (st : bstate) (v : value) : bres (bstate * N) :=
@@ -172,7 +268,7 @@ Section WithBuiltins.
         let n := b_next st in
         BOk ({| b_tabs := b_tabs st; b_next := n + 1;
                 b_stack := {| on_slot := on_slot cur; on_val := on_val cur; on_kids := FCons n v FNil (on_kids cur) |} :: rest;
-                b_nsstack := b_nsstack st; b_eb := b_eb st; b_ids := b_ids st; b_spans := b_spans st; b_open := b_open st |}, n)
+                b_nsstack := b_nsstack st; b_eb := b_eb st; b_ids := b_ids st; b_spans := b_spans st; b_open := b_open st; b_dstart := b_dstart st |}, n)
     end.
 
   (* NameIdBuilder::name_id_with_prefix_id: innermost entry first, within an entry the last declaration first *)
@@ -255,7 +351,7 @@ Section WithBuiltins.
                        if existsb (fun x => str_eqb (fst x) (ab_value a)) (b_ids st1)
                        then BErr (PEDuplicateId (ab_value a) (ab_value_span a))
                        else BOk {| b_tabs := b_tabs st1; b_next := b_next st1; b_stack := b_stack st1; b_nsstack := b_nsstack st1;
-                                   b_eb := b_eb st1; b_ids := (ab_value a, node) :: b_ids st1; b_spans := b_spans st1; b_open := b_open st1 |}
+                                   b_eb := b_eb st1; b_ids := (ab_value a, node) :: b_ids st1; b_spans := b_spans st1; b_open := b_open st1; b_dstart := b_dstart st1 |}
                      else BOk st1);
           do (st3, _) <- add_node st2 (VAttribute nid (ab_value a));
           open_attributes st3 node l' (done ++ [(nid, ab_name_span a, ab_value_span a)])
@@ -273,13 +369,13 @@ Section WithBuiltins.
     | None => BPanic
     | Some eb =>
         let st0 := {| b_tabs := b_tabs st; b_next := b_next st; b_stack := b_stack st;
-                      b_nsstack := eb_ns eb :: b_nsstack st; b_eb := None; b_ids := b_ids st; b_spans := b_spans st; b_open := b_open st |} in
+                      b_nsstack := eb_ns eb :: b_nsstack st; b_eb := None; b_ids := b_ids st; b_spans := b_spans st; b_open := b_open st; b_dstart := b_dstart st |} in
         do (st1, nid) <- element_name_id st0 (eb_prefix eb) (eb_name eb) (eb_prefix_span eb);
         (* add: the element becomes the current node *)
         let node := b_next st1 in
         let st2 := {| b_tabs := b_tabs st1; b_next := node + 1;
                       b_stack := {| on_slot := node; on_val := VElement nid; on_kids := FNil |} :: b_stack st1;
-                      b_nsstack := b_nsstack st1; b_eb := None; b_ids := b_ids st1; b_spans := b_spans st1; b_open := eb_prefix eb :: b_open st1 |} in
+                      b_nsstack := b_nsstack st1; b_eb := None; b_ids := b_ids st1; b_spans := b_spans st1; b_open := eb_prefix eb :: b_open st1; b_dstart := b_dstart st1 |} in
         do st3 <- add_namespace_nodes st2 (eb_ns eb);
         do (st4, aspans) <- open_attributes st3 node (eb_attrs eb) [];
         let m1 := span_add (b_spans st4) (KElStart node) (eb_span eb) in
@@ -296,7 +392,7 @@ Section WithBuiltins.
                 b_stack := {| on_slot := on_slot par; on_val := on_val par;
                               on_kids := FCons (on_slot cur) (on_val cur) (Zipper.frev (on_kids cur)) (on_kids par) |} :: rest;
                 b_nsstack := if pop_ns then tl (b_nsstack st) else b_nsstack st;
-                b_eb := b_eb st; b_ids := b_ids st; b_spans := b_spans st; b_open := if pop_ns then tl (b_open st) else b_open st |}, on_slot cur)
+                b_eb := b_eb st; b_ids := b_ids st; b_spans := b_spans st; b_open := if pop_ns then tl (b_open st) else b_open st; b_dstart := b_dstart st |}, on_slot cur)
     | _ => BPanic                                (* .expect("Cannot close document node") *)
     end.
 
@@ -329,7 +425,7 @@ Section WithBuiltins.
         | FCons i (VText old) k r =>
             BOk ({| b_tabs := b_tabs st; b_next := b_next st;
                     b_stack := {| on_slot := on_slot cur; on_val := on_val cur; on_kids := FCons i (VText (old ++ content)) k r |} :: rest;
-                    b_nsstack := b_nsstack st; b_eb := b_eb st; b_ids := b_ids st; b_spans := b_spans st; b_open := b_open st |}, i)
+                    b_nsstack := b_nsstack st; b_eb := b_eb st; b_ids := b_ids st; b_spans := b_spans st; b_open := b_open st; b_dstart := b_dstart st |}, i)
         | _ => add_node st (VText content)
         end
     | [] => BPanic
@@ -372,6 +468,21 @@ Section WithBuiltins.
         do (st1, n) <- add_node st (VComment (ss_text text));
         BOk (with_spans st1 (span_add (b_spans st1) (KComment n) (ss_span text)))
     | TkPI target content =>
+        (* a processing instruction token with the reserved target: the XML declaration, when it is spelled xml, stands at
+           the very start of a document (the token starts two bytes before its target) and reads as one; an error otherwise *)
+        if reserved_target (ss_text target) then
+          let position := sp_start (ss_span target) - 2 in
+          match (if str_eqb (ss_text target) s_xml then
+                   match b_dstart st, content with
+                   | Some d, Some c => if position =? d then declaration_version c else None
+                   | _, _ => None
+                   end
+                 else None) with
+          | Some v => if str_eqb (ss_text v) s_version_10 then BOk st
+                      else BErr (PEUnsupportedVersion (ss_text v) (ss_span v))
+          | None => BErr (PEXmlParser position)
+          end
+        else
         do (tid, t1) <- of_res (x_add_name_ns (b_tabs st) (ss_text target) nn);
         do (st1, n) <- add_node (with_tabs st t1) (VPI tid (match content with Some c => Some (ss_text c) | None => None end));
         let m1 := span_add (b_spans st1) (KPiTarget n) (ss_span target) in
@@ -442,9 +553,10 @@ Section WithBuiltins.
         end
     end.
 
-  (* Xot::parse_with_span_info; [srclen] = xml.len() in bytes *)
-  Definition parse_document (t : tables) (next : N) (srclen : N) (ts : list ptoken) : bres parsed :=
-    do st <- brun (builder_new t next) ts;
+  (* Xot::parse_with_span_info; [srclen] = xml.len() in bytes, [bom]: the text starts with a byte order mark (which the
+     tokenizer skips, so that the first token starts at 3) *)
+  Definition parse_document_at (bom : bool) (t : tables) (next : N) (srclen : N) (ts : list ptoken) : bres parsed :=
+    do st <- brun (with_dstart (builder_new t next) (Some (if bom then 3 else 0))) ts;
     match b_stack st with
     | [doc] =>
         do els <- top_level_check st (Zipper.frev (on_kids doc)) [];
@@ -459,6 +571,8 @@ Section WithBuiltins.
         end
     | _ => unclosed st
     end.
+
+  Definition parse_document := parse_document_at false.
 
   (* Xot::parse_fragment_with_span_info *)
   Definition parse_fragment (t : tables) (next : N) (ts : list ptoken) : bres parsed :=
